@@ -198,7 +198,7 @@ func checkVersioned(w *World, hist map[string][]verEntry, ncf, nkeys int) {
 					}
 				}
 				class, sig := classifyVersioned(w, cf, key, h, v, exp, got, found)
-				w.Res.Violate(w.step, class, sig, "GetVersionedEntry(%v,%q,%d) = %s; expected %s", cf, key, v, descGot(found, e), descVer(exp))
+				w.Res.Violate(w.step, class, sig, "GetVersionedEntry(%v,%q,%d) = %s; expected %s; copies: %s tables: %s", cf, key, v, descGot(found, e), descVer(exp), DescribeCopies(w, cf, key), DescribeTables(w))
 			}
 		}
 	}
